@@ -106,6 +106,8 @@ def render(rng, desc, fmt, npre):
             lines.append(f"{el}{sp()}0")
         for ls, rows in groups:
             letters = "".join(LETTERS[l].upper() for l in ls)
+            if rng.random() < 0.2:       # both formats are case-insensitive (the NWChem manual itself writes `hydrogen s`)
+                letters = letters.lower() if rng.random() < 0.7 else "".join(rng.choice([ch.lower(), ch]) for ch in letters)
             if fmt == "nw":
                 if rng.random() < 0.3:
                     lines.append(noise(rng, "nw"))
@@ -377,6 +379,15 @@ def iodata_case(run, rng):
     if not same:
         run.violation("from_iodata altered its argument", dict(rep, signature={"kind": "iodata-argument"}))
         return False
+    # importing another molecule does not change what was imported before
+    mol2, specs2 = iodata_molecule(rng, 3)
+    from_iodata(mol2)
+    for b, sp_ in zip(basis, specs):
+        if [tuple(int(v) for v in c) for c in b.angmom_components_cart] != [tuple(c) for c in sp_.cart] or \
+                (sp_.sphord is not None and list(b.angmom_components_sph) != list(sp_.sphord)):
+            run.violation("after a second from_iodata call the shells of the first import report other component conventions",
+                          dict(rep, signature={"kind": "iodata-second-import"}))
+            return False
     return True
 
 
